@@ -405,7 +405,29 @@ class Conn:
 
     # accessory -> controller
     def send(self, data: bytes):
-        return bool(self.transport and self.transport.feed_data(data))
+        """Deliver bytes to the client.  net.delivery chooses how one delivery is cut into reads (a harness-wide environment dimension; every
+        oracle must be indifferent to it): None = one read; 'bytes' = one read per byte; '3/4' = a read ending three quarters into the data
+        (with two encrypted blocks per message: a whole block and the beginning of the next), then the rest; 'head1' = the first byte alone."""
+        mode = getattr(self.net, "delivery", None)
+        if not self.transport:
+            return False
+        if not mode or len(data) < 2:
+            return bool(self.transport.feed_data(data))
+        if mode == "bytes":
+            pieces = [data[i : i + 1] for i in range(len(data))]
+        elif mode == "3/4":
+            h = max(1, (len(data) * 3) // 4)
+            pieces = [data[:h], data[h:]]
+        elif mode == "head1":
+            pieces = [data[:1], data[1:]]
+        else:
+            raise ValueError(mode)
+        ok = False
+        for p_ in pieces:
+            if not self.transport:
+                break
+            ok = bool(self.transport.feed_data(p_)) or ok
+        return ok
 
     def peer_close(self):
         self.peer_open = False
